@@ -1,72 +1,27 @@
 #!/usr/bin/env python3
-"""Coverage-guided search for implementation/model disagreements (support for the correspondence, not a verdict).
-usage: fuzz_diff.py <prop|all> [seconds=120] [--keep]
- 1. seed corpus: the property's own quick-tier cases (short ones, the commands the fuzz target understands);
- 2. `cargo +nightly fuzz run diff` (harness/fuzz) for the given time with a fixed seed: the target answers each case with the
-    crate (in process) and the extracted model (child process) and appends disagreeing cases to work/fuzz_<prop>.findings;
- 3. the findings are judged by the ordinary runner (check.py <prop> --cases file): canonicalisation, agreement, oracles.
-Exit 0 = nothing the runner calls a violation; exit 1 = a VIOLATION line was printed by the runner."""
-import sys, os, random, importlib, subprocess, shutil, hashlib
+"""usage: fuzz_diff.py <prop|all> [seconds=120] [--keep]   - run the coverage-guided implementation/model search of
+vlib/fuzzdiff.py for one property (or all) outside a check and let the ordinary runner judge what it found."""
+import sys, os, json, subprocess, importlib
 ROOT = os.path.dirname(os.path.dirname(os.path.abspath(__file__)))
 sys.path.insert(0, ROOT)
 import check as ck
+from vlib import fuzzdiff
 
-SUPPORTED = ("sps", "pps", "slice", "sei", "bp", "pt", "t35", "avcc", "decode_nal", "bits", "rbsp", "refnal", "annexb")
-
-
-def corpus_for(pid, limit=4000):
+prop = sys.argv[1]
+secs = int(sys.argv[2]) if len(sys.argv) > 2 and sys.argv[2].isdigit() else 120
+rc_all = 0
+with ck.Lock():
+    ck.build_harness()
+    ck.build_model()
+for pid in (["C%02d" % i for i in range(1, 21)] if prop == "all" else [prop]):
     mod = importlib.import_module("vlib.props." + pid)
-    rng = random.Random(1000003 + int(pid[1:]))
-    cases = [c for c in ck.corpus_cases(pid) + mod.gen("quick", rng) if not c.startswith("!") and c.split()[0] in SUPPORTED and len(c) < 1500]
-    rng.shuffle(cases)
-    return cases[:limit]
-
-
-def main():
-    prop = sys.argv[1]
-    secs = int(sys.argv[2]) if len(sys.argv) > 2 and sys.argv[2].isdigit() else 120
-    props = ["C%02d" % i for i in range(1, 21)] if prop == "all" else [prop]
-    rc_all = 0
-    with ck.Lock():
-        ck.build_harness()
-        ck.build_model()
-    env = dict(ck.ENV, CARGO_NET_OFFLINE="true", H264V_MODELRUN=ck.MODELRUN)
-    rc, out = ck.sh(["cargo", "+nightly", "fuzz", "build", "diff"], cwd=ck.HARNESS, timeout=1800, env=env)
-    if rc != 0:
-        print("fuzz build failed (nightly toolchain / cargo-fuzz unavailable?):", out[-500:])
-        return 0
-    for pid in props:
-        work = os.path.join(ROOT, "work", "fuzz_" + pid)
-        shutil.rmtree(work, ignore_errors=True)
-        os.makedirs(work + "/corpus")
-        cs = corpus_for(pid)
-        if not cs:
-            print("%s: no case of a command the fuzz target understands" % pid)
-            continue
-        for c in cs:
-            open(os.path.join(work, "corpus", hashlib.sha1(c.encode()).hexdigest()[:16]), "w").write(c)
-        findings = os.path.join(work, "findings.txt")
-        env2 = dict(env, H264V_FUZZ_OUT=findings)
-        cmd = ["cargo", "+nightly", "fuzz", "run", "diff", work + "/corpus", "--", "-max_total_time=%d" % secs, "-seed=%d" % (7 + int(pid[1:])),
-               "-max_len=4000", "-len_control=0", "-rss_limit_mb=4000", "-timeout=20", "-print_final_stats=1"]
-        p = subprocess.run(cmd, cwd=ck.HARNESS, env=env2, stdout=subprocess.PIPE, stderr=subprocess.STDOUT, text=True)
-        stats = [l for l in p.stdout.splitlines() if l.startswith("stat::") or "cov:" in l][-4:]
-        n = len(open(findings).read().splitlines()) if os.path.exists(findings) else 0
-        print("%s: fuzzed %ds from %d seeds; %s; raw disagreements: %d" % (pid, secs, len(cs), " ".join(s.strip() for s in stats[-3:])[:200], n))
-        if p.returncode != 0:
-            print("  fuzzer exit %d: %s" % (p.returncode, p.stdout[-600:]))
-        if n:
-            rp = os.path.join(work, "replay.json")
-            import json
-            json.dump({"cases": open(findings).read().splitlines()}, open(rp, "w"))
-            q = subprocess.run([sys.executable, os.path.join(ROOT, "check.py"), pid, "--replay", rp], cwd=ROOT, stdout=subprocess.PIPE, stderr=subprocess.STDOUT, text=True)
-            print(q.stdout[-3000:])
-            if "VIOLATION" in q.stdout or "DISAGREEMENT" in q.stdout:
-                rc_all = 1
-        if "--keep" not in sys.argv:
-            shutil.rmtree(work + "/corpus", ignore_errors=True)
-    return rc_all
-
-
-if __name__ == "__main__":
-    sys.exit(main())
+    found, info = fuzzdiff.findings(ck, pid, mod, secs, keep="--keep" in sys.argv)
+    print(pid, info)
+    if found:
+        rp = os.path.join(ROOT, "work", "fuzz_" + pid, "replay.json")
+        json.dump({"cases": found}, open(rp, "w"))
+        q = subprocess.run([sys.executable, os.path.join(ROOT, "check.py"), pid, "--replay", rp], cwd=ROOT, stdout=subprocess.PIPE, stderr=subprocess.STDOUT, text=True)
+        print(q.stdout[-3000:])
+        if "VIOLATION" in q.stdout or "DISAGREEMENT" in q.stdout:
+            rc_all = 1
+sys.exit(rc_all)
